@@ -738,6 +738,7 @@ func CheckMain(id, tier string, self string) int {
 		cov["harness_errors"] = harnessErrs
 	}
 	if coverDir != "" {
+		os.Setenv("VERIF_COVER_ID", id)
 		if byFile := statementCoverage(coverDir); len(byFile) > 0 {
 			cov["statement_coverage_percent_by_file"] = byFile
 		}
@@ -929,6 +930,22 @@ func statementCoverage(dir string) map[string]float64 {
 		if cnt > 0 {
 			bb.hit = 1
 		}
+	}
+	// the blocks no worker executed, per file (coverage/<ID>.uncovered.txt: input for `coverunion.py`, which lists
+	// what no check reaches at all)
+	if id := os.Getenv("VERIF_COVER_ID"); id != "" {
+		var lines []string
+		for file, m := range blocks {
+			name := file[strings.Index(file, "paulsonkoly/calc/")+len("paulsonkoly/calc/"):]
+			for span, bb := range m {
+				if bb.hit == 0 {
+					lines = append(lines, name+":"+span)
+				}
+			}
+		}
+		sort.Strings(lines)
+		os.MkdirAll(filepath.Join(VerifDir, "coverage"), 0o755)
+		os.WriteFile(filepath.Join(VerifDir, "coverage", id+".uncovered.txt"), []byte(strings.Join(lines, "\n")+"\n"), 0o644)
 	}
 	res := map[string]float64{}
 	for file, m := range blocks {
